@@ -45,7 +45,9 @@ def hierarchy_family(shape, mcfg, super_style, ctor_style, with_dtor):
             body += " public virtual override function m() -> string { return \"%s.m\"; }" % c
         elif cfg == "override-super":
             body += " public virtual override function m() -> string { return \"%s.m>\" + super.m(); }" % c
-        if with_dtor:
+        if with_dtor == "default-mid" and c == "B":
+            body += " public destructor() -> void = default;"          # the documented defaulted form: runs nothing
+        elif with_dtor:
             body += " public destructor() -> void { echo(\"~%s\"); }" % c
         src += "class %s%s {%s }\n" % (c, ext, body)
     return src, parents
@@ -87,7 +89,8 @@ class Model:
     def destroy(self, c):
         if self.with_dtor:
             for x in chain_of(self.parents, c):
-                self.out.append("~" + x)
+                if not (self.with_dtor == "default-mid" and x == "B"):
+                    self.out.append("~" + x)
 
 
 def hierarchy_programs(tier):
@@ -98,8 +101,8 @@ def hierarchy_programs(tier):
         derived = {"pair": ["B"], "chain": ["B", "C"], "fork": ["B", "C"], "chain4": ["B", "C", "E"], "tree": ["B", "C", "E"]}[shape]
         for cfgs in itertools.product(opts, repeat=len(derived)):
             mcfg = dict(zip(derived, cfgs))
-            for super_style, ctor_style, with_dtor in itertools.product(("explicit", "implicit"), ("plain", "return-this"), (True, False)):
-                if tier != "thorough" and (super_style, ctor_style, with_dtor) not in (("explicit", "return-this", True), ("implicit", "plain", True), ("explicit", "plain", False)):
+            for super_style, ctor_style, with_dtor in itertools.product(("explicit", "implicit"), ("plain", "return-this"), (True, False, "default-mid")):
+                if tier != "thorough" and (super_style, ctor_style, with_dtor) not in (("explicit", "return-this", True), ("implicit", "plain", True), ("explicit", "plain", False), ("implicit", "return-this", "default-mid")):
                     continue
                 src, parents = hierarchy_family(shape, mcfg, super_style, ctor_style, with_dtor)
                 classes = list(parents)
@@ -137,7 +140,7 @@ def hierarchy_programs(tier):
                                 model.destroy(D)
                             elif drop == "overwrite":
                                 model.destroy(S)
-                            progs.append(("hier:%s:%s:%s:%s:%s:%s>%s:%s" % (shape, "/".join(cfgs), super_style, ctor_style, "dtor" if with_dtor else "nodtor", S, D, drop),
+                            progs.append(("hier:%s:%s:%s:%s:%s:%s>%s:%s" % (shape, "/".join(cfgs), super_style, ctor_style, ("dtor-default-mid" if with_dtor == "default-mid" else "dtor") if with_dtor else "nodtor", S, D, drop),
                                           src + "function main() -> void {\n    " + "\n    ".join(body) + "\n}\n", ("ok", model.out)))
     return progs
 
